@@ -8,24 +8,19 @@
 (* at block ends and function ends), LawResults / LawStatus / LawInit (the     *)
 (* expectations stated in Wasm_MCGen), ObsPreserved (the nop-prefixed module   *)
 (* behaves identically).                                                       *)
-EXTENDS Json, IOUtils, TLC, Naturals, Sequences
-
-JsonCases == JsonDeserialize(IOEnv.TRACE_FILE)
-VARIABLES chunk, i, ph, ci, stack, mem, pages, glob, tab, calls, status, why, ret, steps, olog
-INSTANCE Wasm WITH Cases <- JsonCases
+EXTENDS Wasm
 
 
 (* ---- invariants of the semantics itself --------------------------------------------------- *)
 B2N(b) == IF b THEN 1 ELSE 0
-Rest == UNCHANGED <<chunk, i, ph, ci, olog>>
 EnabledCount ==
-    B2N(ENABLED (Const /\ Rest)) + B2N(ENABLED (Binary /\ Rest)) + B2N(ENABLED (Compare /\ Rest)) + B2N(ENABLED (Unary /\ Rest)) + B2N(ENABLED (Convert /\ Rest))
-    + B2N(ENABLED (Drop /\ Rest)) + B2N(ENABLED (Select /\ Rest)) + B2N(ENABLED (LocalGet /\ Rest)) + B2N(ENABLED (LocalSet /\ Rest)) + B2N(ENABLED (GlobalGet /\ Rest))
-    + B2N(ENABLED (GlobalSet /\ Rest)) + B2N(ENABLED (Load /\ Rest)) + B2N(ENABLED (Store /\ Rest)) + B2N(ENABLED (MemorySize /\ Rest)) + B2N(ENABLED (MemoryGrow /\ Rest))
-    + B2N(ENABLED (Nop /\ Rest)) + B2N(ENABLED (Unreachable /\ Rest)) + B2N(ENABLED (Block /\ Rest)) + B2N(ENABLED (Loop /\ Rest)) + B2N(ENABLED (If /\ Rest))
-    + B2N(ENABLED (Else /\ Rest)) + B2N(ENABLED (End /\ Rest)) + B2N(ENABLED (FuncEnd /\ Rest)) + B2N(ENABLED (Br /\ Rest)) + B2N(ENABLED (BrIf /\ Rest))
-    + B2N(ENABLED (BrTable /\ Rest)) + B2N(ENABLED (Return /\ Rest)) + B2N(ENABLED (Call /\ Rest)) + B2N(ENABLED (CallIndirect /\ Rest))
-    + B2N(ENABLED (NotModelled /\ Rest))
+    B2N(ENABLED Const) + B2N(ENABLED Binary) + B2N(ENABLED Compare) + B2N(ENABLED Unary) + B2N(ENABLED Convert)
+    + B2N(ENABLED Drop) + B2N(ENABLED Select) + B2N(ENABLED LocalGet) + B2N(ENABLED LocalSet) + B2N(ENABLED GlobalGet)
+    + B2N(ENABLED GlobalSet) + B2N(ENABLED Load) + B2N(ENABLED Store) + B2N(ENABLED MemorySize) + B2N(ENABLED MemoryGrow)
+    + B2N(ENABLED Nop) + B2N(ENABLED Unreachable) + B2N(ENABLED Block) + B2N(ENABLED Loop) + B2N(ENABLED If)
+    + B2N(ENABLED Else) + B2N(ENABLED End) + B2N(ENABLED FuncEnd) + B2N(ENABLED Br) + B2N(ENABLED BrIf)
+    + B2N(ENABLED BrTable) + B2N(ENABLED Return) + B2N(ENABLED Call) + B2N(ENABLED CallIndirect)
+    + B2N(ENABLED NotModelled)
 Deterministic == Running => EnabledCount = 1
 
 \* validated code: at the end of a block exactly its results lie above the height recorded at its entry, and at
